@@ -1,6 +1,6 @@
 (* C01 — per-key mutual exclusion.  Statements only; proofs are in PropLemmas.v / StepInv.v. *)
 From Coq Require Import List Arith ZArith.
-From LK Require Import AList Model Inv StepInv PropLemmas.
+From LK Require Import AList Model Inv StepInv PropLemmas Fine.
 Import ListNotations.
 
 (* In every reachable state of either back-end (c_lru c = true: LockableLruCache, false: LockableHashMap
@@ -8,6 +8,19 @@ Import ListNotations.
    any of the four shapes, the eviction scan, the expiry scan or a lock_all_entries stream. *)
 Theorem C01_mutex : forall c s, reachable c s -> NoDup (map snd (s_guards s)).
 Proof. intros c s H. exact (guards_unique_key s (reachable_inv c s H)). Qed.
+
+(* ... also in the middle of a critical section: in every state of a fine-grained run (Fine.v: `_unlock` and
+   `PendingLock::drop` split at the release of the key mutex, lock-free steps of other agents in between)
+   no two guards the clients hold have the same key *)
+Theorem C01_mutex_fine_grained : forall c s0 evs fs g1 g2 k,
+  reachable c s0 -> fruns c (s0, None) evs fs ->
+  In (g1, k) (s_guards (fst fs)) -> In (g2, k) (s_guards (fst fs)) -> g1 = g2.
+Proof.
+  intros c s0 evs fs g1 g2 k Hr Hrun.
+  assert (HR : Rel c (s0, None)).
+  { split; [eapply reachable_inv; eauto|]. split; [eapply DropInv.reachable_dinv; eauto|exact I]. }
+  destruct (fine_run_linearises c _ _ _ HR Hrun) as [_ HR']. exact (fine_mutual_exclusion c fs g1 g2 k HR').
+Qed.
 
 (* While a guard for k is alive ... a try variant takes the failure path (and reports None), *)
 Theorem C01_try_fails_while_held : forall c s a sh k g o,
